@@ -37,6 +37,12 @@ pub fn base_world(seed: u64, idx: u64, s: &dyn SuiteOps, hsm: bool) -> World {
     threads.push(ops);
     let (_, ops) = b.login_ops(&mut g, setup, Some(r.record), &pw, &pw, &cred, None, None, ids.clone(), ids.clone(), ksf.clone(), false);
     threads.push(ops);
+    // a second user registering and logging in while the first one is active
+    let pw2 = small_pw(&mut g);
+    let (r2, mut ops) = b.reg_ops(&mut g, setup, &pw2, &pw2, b"second-user", WIds::default(), ksf.clone(), false);
+    let (_, lops) = b.login_ops(&mut g, setup, Some(r2.record), &pw2, &pw2, b"second-user", ctx.clone(), ctx.clone(), WIds::default(), WIds::default(), ksf.clone(), false);
+    ops.extend(lops);
+    threads.push(ops);
     b.interleave(&mut g, threads);
     b.w
 }
